@@ -36,7 +36,11 @@ vworld_rt.file_imported(__name__, __file__)
 DIR_NAMES = ['tests', 'tests', 'tests', 'ftests', 'pkg', 'sub', 'lib',
              'testing',
              'x-y', '1abc', '.git', 'node_modules', '__pycache__', 'CVS',
-             '_darcs', 'tests2', 'my tests']
+             '_darcs', 'tests2', 'my tests',
+             # identifiers all the same: reserved words (a package named
+             # 'lambda' is loaded with __import__ like any other), soft
+             # keywords, letters beyond ASCII
+             'lambda', 'global', 'if', 'async', 'match', 'caf\xe9']
 FILE_NAMES = ['tests.py', 'tests.py', 'ftests.py', 'test_a.py', 'test_b.py',
               'test_a.py', 'test_c.py', 'testing.py',
               'helper.py', 'check_c.py', 'test_d.txt', 'tests.txt',
